@@ -59,16 +59,12 @@ func (d *deduplicator) notifyDKGStarted(
 
 	// The cache key is the hexadecimal representation of the seed.
 	cacheKey := newDKGSeed.Text(16)
-	// If the key is not in the cache, that means the seed was not handled
-	// yet and the client should proceed with the execution.
-	if !d.dkgSeedCache.Has(cacheKey) {
-		d.dkgSeedCache.Add(cacheKey)
-		return true
-	}
-
-	// Otherwise, the DKG seed is a duplicate and the client should not proceed
-	// with the execution.
-	return false
+	// Add checks the presence of the key and adds it in one atomic step so
+	// concurrent notifications about the same seed cannot both succeed. If the
+	// key was not in the cache, that means the seed was not handled yet and
+	// the client should proceed with the execution. Otherwise, the DKG seed
+	// is a duplicate and the client should not proceed with the execution.
+	return d.dkgSeedCache.Add(cacheKey)
 }
 
 // notifyDKGResultSubmitted notifies the client wants to start some actions
@@ -85,16 +81,13 @@ func (d *deduplicator) notifyDKGResultSubmitted(
 		hex.EncodeToString(newDKGResultHash[:]) +
 		strconv.Itoa(int(newDKGResultBlock))
 
-	// If the key is not in the cache, that means the result was not handled
-	// yet and the client should proceed with the execution.
-	if !d.dkgResultHashCache.Has(cacheKey) {
-		d.dkgResultHashCache.Add(cacheKey)
-		return true
-	}
-
-	// Otherwise, the DKG result is a duplicate and the client should not
-	// proceed with the execution.
-	return false
+	// Add checks the presence of the key and adds it in one atomic step so
+	// concurrent notifications about the same result cannot both succeed.
+	// If the key was not in the cache, that means the result was not handled
+	// yet and the client should proceed with the execution. Otherwise, the
+	// DKG result is a duplicate and the client should not proceed with the
+	// execution.
+	return d.dkgResultHashCache.Add(cacheKey)
 }
 
 func (d *deduplicator) notifyWalletClosed(
@@ -105,14 +98,11 @@ func (d *deduplicator) notifyWalletClosed(
 	// Use wallet ID converted to string as the cache key.
 	cacheKey := hex.EncodeToString(WalletID[:])
 
-	// If the key is not in the cache, that means the wallet closure was not
-	// handled yet and the client should proceed with the execution.
-	if !d.walletClosedCache.Has(cacheKey) {
-		d.walletClosedCache.Add(cacheKey)
-		return true
-	}
-
-	// Otherwise, the wallet closure is a duplicate and the client should not
-	// proceed with the execution.
-	return false
+	// Add checks the presence of the key and adds it in one atomic step so
+	// concurrent notifications about the same wallet cannot both succeed.
+	// If the key was not in the cache, that means the wallet closure was not
+	// handled yet and the client should proceed with the execution. Otherwise,
+	// the wallet closure is a duplicate and the client should not proceed
+	// with the execution.
+	return d.walletClosedCache.Add(cacheKey)
 }
